@@ -57,12 +57,14 @@ SelPool == << [txt |-> "k : int[0,2]", names |-> <<"k">>],
               [txt |-> "k : int[0,1], n : id_t", names |-> <<"k", "n">>],
               [txt |-> "j : id_t", names |-> <<"j">>] >>
 GuardPool == << [txt |-> "i < 2", req |-> ""], [txt |-> "x >= 1", req |-> ""], [txt |-> "i == j && x < 3", req |-> ""],
-                [txt |-> "k > 0", req |-> "k"], [txt |-> "a[i] == 0", req |-> ""], [txt |-> "pos(j)", req |-> ""] >>
+                [txt |-> "k > 0", req |-> "k"], [txt |-> "a[i] == 0", req |-> ""], [txt |-> "pos(j)", req |-> ""],
+                [txt |-> "x >= 1 && i < 21 && j != 1", req |-> ""] >>
 SyncPool == <<"c!", "c?", "b!", "b?">>
 AsgPool == << [txt |-> "i = 1", req |-> "", wr |-> "i"], [txt |-> "j = i + 1, x = 0", req |-> "", wr |-> "j"], [txt |-> "i++", req |-> "", wr |-> "i"],
               [txt |-> "a[0] = k", req |-> "k", wr |-> ""], [txt |-> "x = 0", req |-> "", wr |-> ""] >>
 ProbPool == <<"2", "N", "3">>
 
+LocNames == {"Idle", "Busy", "Done"}          \* reused from template to template, as in real models
 Flags == {"", "urgent", "committed"}
 Ctrls == {"", "true", "false"}
 
@@ -107,8 +109,9 @@ LDecl == /\ phase = "ldecl" /\ Spend
 
 AddLoc == /\ phase \in {"ldecl", "locs"} /\ Len(CurT.locs) < MaxLoc
           /\ IF Len(CurT.locs) = 0 THEN UNCHANGED budget ELSE Spend          \* the first location is free: every template needs one
-          /\ \E named \in BOOLEAN, inv \in 0..Cap(Len(InvPool)), rate \in 0..Cap(Len(RatePool)), fl \in Flags :
-                m' = [m EXCEPT !.templs[NT].locs = Append(@, [id |-> IdOf(NextId), name |-> IF named THEN "L" \o ToString(NextId) ELSE "",
+          /\ \E nm \in ({""} \cup LocNames) \ {CurT.locs[q].name : q \in {r \in 1..Len(CurT.locs) : CurT.locs[r].name # ""}},
+                inv \in 0..Cap(Len(InvPool)), rate \in 0..Cap(Len(RatePool)), fl \in Flags :
+                m' = [m EXCEPT !.templs[NT].locs = Append(@, [id |-> IdOf(NextId), name |-> nm,
                                                               inv |-> inv, rate |-> rate, flag |-> fl])]
           /\ phase' = "locs"
 
